@@ -249,6 +249,10 @@ func (c *nestedFloat64WithMaxDecimalDigits) marshalJSON(
 ) ([]byte, error) {
 	switch val.Kind() {
 	case reflect.Slice:
+		if val.IsNil() {
+			// As encoding/json does: a nil slice (an EMPTY member) is null, not [].
+			return append(buf, nullGeometry...), nil
+		}
 		buf = append(buf, '[')
 		for i := range val.Len() {
 			if i > 0 {
